@@ -301,7 +301,11 @@ func (p *Packer) packWalkFn(root, src, dst string, tarW *tar.Writer, meta *Meta,
 				}
 				// Copy, so that sibling links do not share one backing array.
 				nested := append(append([]string{}, dereferenced...), resolved.absTarget)
-				return filepath.Walk(resolved.absTarget, p.packWalkFn(root, resolved.absTarget, path, tarW, meta, ignoreRules, nested))
+				// The directory is archived at the link's position in the
+				// archive, which differs from the link's location on disk
+				// when the link itself was reached through another
+				// dereferenced directory.
+				return filepath.Walk(resolved.absTarget, p.packWalkFn(root, resolved.absTarget, filepath.Join(root, subpath), tarW, meta, ignoreRules, nested))
 			}
 
 			// Like special files inside the tree, a link to a fifo, socket or
